@@ -1607,6 +1607,11 @@ class Engine:
             if ' using ' in h:
                 h, u = h.split(' using ', 1)
                 using = [x.strip() for x in u.split(';;') if x.strip()]
+            extra_terms = []
+            if ' at_terms ' in h:
+                # further terms at which the universal hypotheses are instantiated together with the fresh constants
+                h, tt = h.split(' at_terms ', 1)
+                extra_terms = [x.strip() for x in tt.split(';;') if x.strip()]
             call = ast.parse(h[13:].strip(), mode='eval').body
             if not (isinstance(call, ast.Call) and getattr(call.func, 'id', '') == 'forall' and len(call.args) == 3):
                 raise ContractError('forall_intro expects forall((vars), cond, body)')
@@ -1623,7 +1628,7 @@ class Engine:
             saved = list(st.pc)
             sub.pc = st.pc
             st.pc.append(cond)
-            self.instantiate_at(st, [sub.env[nm].t for nm in names])
+            self.instantiate_at(st, [sub.env[nm].t for nm in names] + [I(self.spec_eval(x, sub)) for x in extra_terms])
             for u in using:
                 self.hint(sub, u, node, kind)           # intermediate steps about the same fresh constants
             self.specmode += 1
